@@ -83,9 +83,20 @@ class Ctx:
         self.oblig_seq[base] = n + 1
         name = base if n == 0 else f'{base}#{n}'
         g = goal
+        hyps = list(st.pc)
+        outer = list(st.guards)
+        if st.bound and st.guards:
+            # guards that mention a bound variable (the test of an IfExp / a short-circuit inside a comprehension) belong
+            # INSIDE the quantifier; as free hypotheses they would say nothing about the quantified instances
+            from .state import occurs
+            bvars = [v for v, _ in st.bound]
+            inner = [gd for gd in st.guards if any(occurs(v, gd) for v in bvars)]
+            if inner:
+                outer = [gd for gd in st.guards if not any(gd is x for x in inner)]
+                g = z3.Implies(z3.And(*inner), g)
         for var, guard in reversed(st.bound):
             g = z3.ForAll([var], z3.Implies(guard, g))
-        self.obligs.append(Oblig(name=name, kind=kind, hyps=st.hyps(), goal=g, line=line,
+        self.obligs.append(Oblig(name=name, kind=kind, hyps=hyps + outer, goal=g, line=line,
                                  func=self.fn_label, note=note, witness=witness or {}))
 
 
